@@ -87,7 +87,8 @@ def base_grid(tier, monitors, gregory_only=False, meek_only=False, symtie=False,
             for seats in (1, 2):
                 jobs.append(job('meek-prf', {}, 3, seats, 3, (5 if quick else 6), monitors, B, symtie=symtie, weight=4))
         if want('meek'):
-            jobs.append(job('meek', dict(RAT, omega=1), 3, 1, 2, 4, monitors, B, symtie=symtie, allow_truncated=True, weight=3))
+            jobs.append(job('meek', dict(RAT, omega=1), 3, 1, 2, 4, monitors, B, symtie=symtie, allow_truncated=True, weight=3,
+                            equal=['1=2 3'] if equal else None))
     # four candidates (batch exclusions need them), short rankings
     if extra4:
         four = [('wigm-prf-batch', {}), ('cfer-batch', {}), ('mpls', {}), ('scotland', {}), ('wigm', dict(FX2, defeat_batch='zero')),
@@ -104,6 +105,9 @@ def base_grid(tier, monitors, gregory_only=False, meek_only=False, symtie=False,
                 continue
             for seats in ((2, 3) if quick else (1, 2, 3)):
                 jobs.append(job(rule, opts, 4, seats, 1 if quick else 2, 7 if quick else 8, monitors, B, symtie=symtie, weight=2))
+        if want('qpq') and not gregory_only and not meek_only:
+            # the restart after an exclusion (elected -> hopeful) is only visible with four candidates and transfers
+            jobs.append(job('qpq', {}, 4, 2, 2, 4 if quick else 5, monitors, B, symtie=symtie, weight=6))
     # withdrawn / undeclared
     if withdrawn:
         wj = [('wigm-prf', {}, [2], None), ('scotland', {}, [1], None), ('mpls', {}, None, [3]), ('mpls', {}, [1], [3]),
